@@ -115,6 +115,19 @@ class SDict(object):
         self.keys_ = {}
         self.empty = fresh("empty_" + name, z3.BoolSort())
         self.taint = frozenset()
+        self.kkind = None             # kind of the keys (set for dictionaries whose keys are iterated)
+        self.keyset = None            # string-keyed dictionaries: z3 set of the keys present (vf/symset.py)
+
+    def freeze_initial(self):
+        """Called before the first mutation: what was learnt about the dictionary so far is what
+        is known of its content on entry (used to rebuild inputs from a counter-model)."""
+        if getattr(self, 'initial_memo', None) is None:
+            self.initial_memo = (dict(self.memo), dict(self.keys_))
+
+    def enable_keyset(self, path):
+        from . import symset
+        self.keyset = fresh("keys_" + self.name, symset.StrSet)
+        path.assume(self.empty == (self.keyset == symset.EMPTY))
 
     def __repr__(self):
         return "SDict(%s)" % self.name
@@ -298,7 +311,7 @@ def lower_bool(t):
 
 
 def is_symbolic(v):
-    return isinstance(v, (SInt, SBool, SSeq, SEnum, SOpt, Opaque, Obj, ExcVal, SDict))
+    return isinstance(v, (SInt, SBool, SSeq, SEnum, SOpt, Opaque, Obj, ExcVal, SDict)) or type(v).__name__ == "SSet"
 
 
 def taint_of(v, _depth=0):
